@@ -2,8 +2,9 @@
    PeerCodec::decode_nlri_list / decode_nlri, Nlri::decode (packet/src/bgp.rs),
    Ipv4Net/Ipv6Net::decode, labeled.rs, vpn.rs, mpls.rs, rd.rs (decode only).
 
-   Families whose decoders are not modelled (MUP, flowspec, flowspec-VPN, LS,
-   SR policy, EVPN, RTC) go through the Section variable [other_nlri]; the
+   EVPN (evpn.rs, route types 1-5), RTC (rtc.rs), SR policy (sr_policy.rs) and the four
+   flowspec families (flowspec.rs) are modelled below.  Families whose decoders are not
+   modelled (MUP, BGP-LS) go through the Section variable [other_nlri]; the
    contract assumed of it is stated in Proofs/WireNlri.v (consumes at least one
    byte or fails, never panics) and it is exercised by the harness only.
 
@@ -27,10 +28,14 @@ Definition F_IPV4_SRP := 65609.  Definition F_IPV6_SRP := 131145.
 Definition F_EVPN := 1638470.    Definition F_RTC := 65668.
 
 Definition is_other_family (f : N) : bool :=
-  existsb (N.eqb f) [F_IPV4_MUP; F_IPV6_MUP; F_IPV4_FS; F_IPV6_FS; F_IPV4_FSVPN; F_IPV6_FSVPN;
-                     F_LS; F_IPV4_SRP; F_IPV6_SRP; F_EVPN; F_RTC].
+  existsb (N.eqb f) [F_IPV4_MUP; F_IPV6_MUP; F_LS].
 Definition is_flowspec (f : N) : bool :=
   existsb (N.eqb f) [F_IPV4_FS; F_IPV6_FS; F_IPV4_FSVPN; F_IPV6_FSVPN].
+
+(* a flowspec component: an address prefix (types 1, 2) or a list of (operator bits, value) *)
+Inductive fcomp :=
+| FPrefix (ty bits off : N) (addr : list N)
+| FOps (ty : N) (ops : list (N * N)).
 
 Inductive nlri :=
 | NV4 (mask : N) (addr : list N)
@@ -39,6 +44,10 @@ Inductive nlri :=
 | NLab6 (labels : list N) (mask : N) (addr : list N)
 | NVpn4 (labels rd : list N) (mask : N) (addr : list N)
 | NVpn6 (labels rd : list N) (mask : N) (addr : list N)
+| NEvpn (enc : list N)                 (* EvpnNlri::encode of the decoded route: type, length, data *)
+| NRtc (enc : list N)                  (* RtcNlri::encode *)
+| NSrp (enc : list N)                  (* SrPolicyNlri::encode *)
+| NFlow (kind : N) (rd : list N) (comps : list fcomp)   (* kind 0 v4, 1 v6, 2 vpn-v4, 3 vpn-v6; rd = [] unless vpn *)
 | NOther.
 
 Definition MAL := E_MALFORMED_ATTR_LIST.
@@ -109,6 +118,162 @@ Definition vpn_decode (maxbits : N) (abytes : nat) (c : list N) (n : N)
   | _ => Panic 2                                         (* &data[0..2] *)
   end.
 
+
+(* ---- EVPN (evpn.rs EvpnNlri::decode and the five route decoders).  Every failure is the same
+   io::Error, mapped to UpdateMalformedAttributeList, so the order of the reads inside one route
+   does not show; [data] is what the route decoder consumed, which is also what encode() writes. *)
+Definition rd_ok (rd : list N) : bool :=
+  match rd with t1 :: t2 :: _ => be16 t1 t2 <=? 2 | _ => false end.
+
+(* ip_len octet of route types 2-4: number of address octets, or None when malformed *)
+Definition evpn_ip_octets (allow_zero : bool) (ip_len : N) : option nat :=
+  if ip_len =? 32 then Some 4%nat else if ip_len =? 128 then Some 16%nat
+  else if allow_zero && (ip_len =? 0) then Some 0%nat else None.
+
+Definition evpn_route (rt rl : N) (c : list N) : res (list N * list N) :=
+  match rt with
+  | 1 => (* RD 8, ESI 10, ETag 4, label 3 *)
+    if negb (rl =? 25) then Fail MAL else
+    '(d, c) <- rm (take 25 c) ;;
+    if rd_ok d then Ok (d, c) else Fail MAL
+  | 2 => (* RD 8, ESI 10, ETag 4, MAC length 1 (= 48), MAC 6, IP length 1, IP 0/4/16, label1 3, [label2 3] *)
+    if rl <? 33 then Fail MAL else
+    '(h, c) <- rm (take 22 c) ;;
+    if negb (rd_ok h) then Fail MAL else
+    '(ml, c) <- rm (get8 c) ;;
+    if negb (ml =? 48) then Fail MAL else
+    '(mac, c) <- rm (take 6 c) ;;
+    '(il, c) <- rm (get8 c) ;;
+    match evpn_ip_octets true il with
+    | None => Fail MAL
+    | Some ipb =>
+      '(ip, c) <- rm (take ipb c) ;;
+      '(l1, c) <- rm (take 3 c) ;;
+      let d := h ++ [ml] ++ mac ++ [il] ++ ip ++ l1 in
+      if rl =? 33 + N.of_nat ipb + 3 then
+        '(l2, c) <- rm (take 3 c) ;; Ok (d ++ l2, c)
+      else Ok (d, c)
+    end
+  | 3 => (* RD 8, ETag 4, IP length 1, IP 4/16 *)
+    if rl <? 17 then Fail MAL else
+    '(h, c) <- rm (take 12 c) ;;
+    if negb (rd_ok h) then Fail MAL else
+    '(il, c) <- rm (get8 c) ;;
+    match evpn_ip_octets false il with
+    | None => Fail MAL
+    | Some ipb => '(ip, c) <- rm (take ipb c) ;; Ok (h ++ [il] ++ ip, c)
+    end
+  | 4 => (* RD 8, ESI 10, IP length 1, IP 4/16 *)
+    if rl <? 23 then Fail MAL else
+    '(h, c) <- rm (take 18 c) ;;
+    if negb (rd_ok h) then Fail MAL else
+    '(il, c) <- rm (get8 c) ;;
+    match evpn_ip_octets false il with
+    | None => Fail MAL
+    | Some ipb => '(ip, c) <- rm (take ipb c) ;; Ok (h ++ [il] ++ ip, c)
+    end
+  | 5 => (* RD 8, ESI 10, ETag 4, prefix length 1, prefix 4/16, gateway 4/16, label 3 *)
+    if (rl =? 34) || (rl =? 58) then
+      '(d, c) <- rm (take (nat_of rl) c) ;;
+      (* prefix length octet (offset 22): at most 32 for the IPv4 form, 128 for the IPv6 form (e0eebac) *)
+      match nth_error d 22 with
+      | None => Panic 8
+      | Some pl =>
+        if rd_ok d && (pl <=? (if rl =? 34 then 32 else 128)) then Ok (d, c) else Fail MAL
+      end
+    else Fail MAL
+  | _ => Fail MAL
+  end.
+
+Definition evpn_decode (c : list N) : res (list N * list N) :=
+  '(rt, c) <- rm (get8 c) ;;
+  '(rl, c) <- rm (get8 c) ;;
+  '(d, c) <- evpn_route rt rl c ;;
+  Ok (rt :: len d :: d, c).
+
+(* ---- RTC (rtc.rs RtcNlri::decode): prefix length 0, 32 (origin AS) or 96 (origin AS + route target) *)
+Definition rtc_decode (c : list N) : res (list N * list N) :=
+  '(bits, c) <- rm (get8 c) ;;
+  if bits =? 0 then Ok ([0], c)
+  else if bits =? 32 then '(d, c) <- rm (take 4 c) ;; Ok (32 :: d, c)
+  else if bits =? 96 then '(d, c) <- rm (take 12 c) ;; Ok (96 :: d, c)
+  else Fail MAL.
+
+(* ---- SR policy (sr_policy.rs SrPolicyNlri::decode): length 96 / 192, distinguisher, color, endpoint *)
+Definition srp_decode (c : list N) : res (list N * list N) :=
+  '(bits, c) <- rm (get8 c) ;;
+  '(dc, c) <- rm (take 8 c) ;;
+  if bits =? 96 then '(e, c) <- rm (take 4 c) ;; Ok (96 :: dc ++ e, c)
+  else if bits =? 192 then '(e, c) <- rm (take 16 c) ;; Ok (192 :: dc ++ e, c)
+  else Fail MAL.
+
+(* ---- flowspec (flowspec.rs).  Op::decode: length bits 5-4 give 1/2/4/8 value octets *)
+Fixpoint be_val (l : list N) (acc : N) : N :=
+  match l with [] => acc | b :: r => be_val r (acc * 256 + b) end.
+
+Definition fs_op (c : list N) : res (N * N * list N) :=
+  '(raw, c) <- rm (get8 c) ;;
+  let order := (raw / 16) mod 4 in
+  let n := if order =? 0 then 1%nat else if order =? 1 then 2%nat else if order =? 2 then 4%nat else 8%nat in
+  '(v, c) <- rm (take n c) ;;
+  Ok (N.land raw 207, be_val v 0, c).
+
+(* decode_ops: until the end-of-list bit *)
+Fixpoint fs_ops (fuel : nat) (c : list N) (acc : list (N * N)) : res (list (N * N) * list N) :=
+  match fuel with
+  | O => Panic FUEL
+  | S f =>
+    '(bits, v, c) <- fs_op c ;;
+    if N.testbit bits 7 then Ok (rev ((bits, v) :: acc), c) else fs_ops f c ((bits, v) :: acc)
+  end.
+
+(* FlowspecV4Component::decode / FlowspecV6Component::decode on the NLRI's own buffer *)
+Definition fs_component (v6 : bool) (c : list N) : res (fcomp * list N) :=
+  '(ty, c) <- rm (get8 c) ;;
+  if (ty =? 1) || (ty =? 2) then
+    '(bits, c) <- rm (get8 c) ;;
+    if (if v6 then 128 else 32) <? bits then Fail MAL else
+    if v6 then
+      '(off, c) <- rm (get8 c) ;;
+      '(a, c) <- rm (take (nat_of (ceil8 bits)) c) ;;
+      Ok (FPrefix ty bits off (pad_to 16 a), c)
+    else
+      '(a, c) <- rm (take (nat_of (ceil8 bits)) c) ;;
+      Ok (FPrefix ty bits 0 (pad_to 4 a), c)
+  else if (3 <=? ty) && (ty <=? (if v6 then 13 else 12)) then
+    '(ops, c) <- fs_ops (S (length c)) c [] ;; Ok (FOps ty ops, c)
+  else Fail MAL.
+
+(* while c.position() < nlri_len *)
+Fixpoint fs_components (fuel : nat) (v6 : bool) (c : list N) (acc : list fcomp) : res (list fcomp) :=
+  match c with
+  | [] => Ok (rev acc)
+  | _ =>
+    match fuel with
+    | O => Panic FUEL
+    | S f => '(x, c') <- fs_component v6 c ;; fs_components f v6 c' (x :: acc)
+    end
+  end.
+
+(* Flowspec{,Vpn}V{4,6}Nlri::decode: [n] is what remains of the NLRI field *)
+Definition fs_decode (vpn v6 : bool) (c : list N) (n : N) : res (list N * list fcomp * list N) :=
+  if n <? 1 then Fail MAL else
+  '(first, c) <- rm (get8 c) ;;
+  '(nlen, hdr, c) <-
+     (if first <? 240 then Ok (first, 1, c)
+      else '(second, c) <- rm (get8 c) ;; Ok ((first mod 16) * 256 + second, 2, c)) ;;
+  if (n <? nlen + hdr) || (vpn && (nlen <? 8)) then Fail MAL else
+  '(buf, c) <- rm (take (nat_of nlen) c) ;;
+  if vpn then
+    let rd := firstn 8 buf in
+    if Nat.ltb (length rd) 8 then Panic 7 else              (* c.read_u8()? on the 8 RD octets: cannot fail *)
+    if negb (rd_ok rd) then Fail MAL else
+    comps <- fs_components (S (length buf)) v6 (skipn 8 buf) [] ;;
+    Ok (rd, comps, c)
+  else
+    comps <- fs_components (S (length buf)) v6 buf [] ;;
+    Ok ([], comps, c).
+
 (* ---- the unrepaired label arithmetic (vpn.rs / labeled.rs before the fix):
      let label_bits = (labels.encoded_len() * 8) as u8;
      if total_bits < label_bits + VPN_RD_BITS { Err }          (u8 addition) *)
@@ -138,6 +303,20 @@ Section Nlri.
       '(ls, m, a, c) <- labeled_decode 32 4 is_reach c n ;; Ok (NLab4 ls m a, c)
     else if fam =? F_IPV6_MPLS then
       '(ls, m, a, c) <- labeled_decode 128 16 is_reach c n ;; Ok (NLab6 ls m a, c)
+    else if fam =? F_EVPN then
+      '(e, c) <- evpn_decode c ;; Ok (NEvpn e, c)
+    else if fam =? F_RTC then
+      '(e, c) <- rtc_decode c ;; Ok (NRtc e, c)
+    else if (fam =? F_IPV4_SRP) || (fam =? F_IPV6_SRP) then
+      '(e, c) <- srp_decode c ;; Ok (NSrp e, c)
+    else if fam =? F_IPV4_FS then
+      '(rd, comps, c) <- fs_decode false false c n ;; Ok (NFlow 0 rd comps, c)
+    else if fam =? F_IPV6_FS then
+      '(rd, comps, c) <- fs_decode false true c n ;; Ok (NFlow 1 rd comps, c)
+    else if fam =? F_IPV4_FSVPN then
+      '(rd, comps, c) <- fs_decode true false c n ;; Ok (NFlow 2 rd comps, c)
+    else if fam =? F_IPV6_FSVPN then
+      '(rd, comps, c) <- fs_decode true true c n ;; Ok (NFlow 3 rd comps, c)
     else if is_other_family fam then
       match other_nlri fam is_reach c with
       | Some c' => Ok (NOther, c')
@@ -183,6 +362,15 @@ Definition v_nlri (x : nlri) : val :=
   | NLab6 l m a => VL [VN 3; VNs l; VN m; VNs a]
   | NVpn4 l r m a => VL [VN 4; VNs l; VNs r; VN m; VNs a]
   | NVpn6 l r m a => VL [VN 5; VNs l; VNs r; VN m; VNs a]
+  | NEvpn e => VL [VN 10; VNs e]
+  | NRtc e => VL [VN 11; VNs e]
+  | NSrp e => VL [VN 12; VNs e]
+  | NFlow k rd comps =>
+    VL [VN 13; VN k; VNs rd;
+        VList (fun x => match x with
+                        | FPrefix t b o a => VL [VN t; VN 0; VN b; VN o; VNs a]
+                        | FOps t ops => VL [VN t; VN 1; VList VPairN ops]
+                        end) comps]
   | NOther => VL [VN 9]
   end.
 
